@@ -432,6 +432,8 @@ def stage_hash_traces(ctx):
     jobs = []
     for m in msgs:
         for pipe, fns in hdrv.FUNCS.items():
+            if q and len(m) > 8000 and pipe != "ripemd160":
+                continue               # quick tier: the long message only where the length field is pycoin's own code
             for fn in fns:
                 jobs.append((fn, m))
     pipe_of = {fn: p for p, fns in hdrv.FUNCS.items() for fn in fns}
@@ -549,8 +551,10 @@ def _run_and_log(rnd, size, nf, tweak, ops, how):
     except Exception as e:
         return {"size": size, "nfuncs": nf, "tweak": bdrv.int_to_limbs(tweak), "ev": [], "how": how,
                 "exc": "BloomFilter(): %s: %s" % (type(e).__name__, e)}
+    prev = bytes(size)
+    nadd = 0
     for op in ops:
-        e = {"op": op["op"], "b": op["b"], "i": op["i"], "fb": [], "cb": [], "seed": [0], "h": [0, 0]}
+        e = {"op": op["op"], "b": op["b"], "i": op["i"], "fb": [], "fbd": [], "full": 0, "cb": [], "seed": [0], "h": [0, 0]}
         try:
             if op["op"] == "murmur3":
                 s = _rand_seed(rnd)
@@ -566,14 +570,22 @@ def _run_and_log(rnd, size, nf, tweak, ops, how):
                 fb = bytes(bf.filter_bytes)
                 if len(fb) != size:
                     raise RuntimeError("filter_bytes has length %d" % len(fb))
-                e["fb"] = bdrv.sparse(fb)
-                setbits = [8 * k + b for k, v in e["fb"][:40] for b in range(8) if v >> b & 1]
+                e["fbd"] = [[k, fb[k]] for k in range(size) if fb[k] != prev[k]]
+                if nadd % 50 == 0:
+                    e["full"], e["fb"] = 1, bdrv.sparse(fb)
+                nadd += 1
+                prev = fb
+                nz = bdrv.sparse(fb)
+                setbits = [8 * k + b for k, v in rnd.sample(nz, min(len(nz), 40)) for b in range(8) if v >> b & 1]
                 pos = set(rnd.sample(setbits, min(len(setbits), 10))) | {rnd.randrange(nb) for _ in range(10)} | {0, nb - 1}
                 e["cb"] = [[p, 1 if bf.check_bit(p) else 0] for p in sorted(pos)]
         except Exception as x:
             exc = "%s: %s: %s" % (op["op"], type(x).__name__, str(x)[:100])
             break
         ev.append(e)
+    last = [e for e in ev if e["op"] != "murmur3"]
+    if last and not exc:
+        last[-1]["full"], last[-1]["fb"] = 1, bdrv.sparse(prev)
     tr = {"size": size, "nfuncs": nf, "tweak": bdrv.int_to_limbs(tweak), "ev": ev, "how": how}
     if exc:
         tr["exc"] = exc
@@ -600,12 +612,15 @@ def stage_bloom_traces(ctx):
     good = [t for t in traces if "exc" not in t]
     # self-test traces: one wrong byte, one wrong check_bit answer, one wrong murmur value
     st = []
-    src = next(t for t in good if any(e["fb"] for e in t["ev"]))
+    src = next(t for t in good if sum(1 for e in t["ev"] if e["fbd"]) >= 3)
     c1 = copy.deepcopy(src)
-    e1 = next(e for e in c1["ev"] if e["fb"])
-    e1["fb"][0][1] ^= 0x81
-    if e1["fb"][0][1] == 0:
-        e1["fb"][0][1] = 0x81
+    e1 = [e for e in c1["ev"] if e["fbd"]][1]          # a middle call: only the changed bytes are logged
+    e1["fbd"][0][1] ^= 0x81
+    if e1["fbd"][0][1] == 0:
+        e1["fbd"][0][1] = 0x81
+    c0 = copy.deepcopy(src)
+    e0 = [e for e in c0["ev"] if e["full"]][-1]          # the last call: all non-zero bytes
+    e0["fb"] = e0["fb"][1:]
     c2 = copy.deepcopy(src)
     e2 = next(e for e in c2["ev"] if e["cb"])
     e2["cb"][0][1] ^= 1
@@ -613,10 +628,10 @@ def stage_bloom_traces(ctx):
     c3 = copy.deepcopy(srcm)
     e3 = next(e for e in c3["ev"] if e["op"] == "murmur3")
     e3["h"][1] ^= 1
-    st = [c1, c2, c3]
+    st = [c1, c2, c3, c0]
     data = [{"size": t["size"], "nfuncs": t["nfuncs"], "tweak": t["tweak"], "ev": t["ev"]} for t in good + st]
     rej = _run_trace_tlc(ctx, "Trace_Bloom", data, len(data))
-    ctx.selftest("bloom_trace_rejects_corrupted_field", [i for i in rej if i > len(good)] == [len(good) + 1, len(good) + 2, len(good) + 3])
+    ctx.selftest("bloom_trace_rejects_corrupted_field", [i for i in rej if i > len(good)] == [len(good) + 1, len(good) + 2, len(good) + 3, len(good) + 4])
     nrej = 0
     for i in rej:
         if i > len(good):
